@@ -78,9 +78,46 @@ def cases(tier):
         text = f'10 PRINT "A{ch}B"\n20 REM X{ch}Y\n30 DATA P{ch}Q,2\n40 A$="{ch}"\n'
         out.append({"fmt": "cli", "kind": "cli-control-char", "name": "prog.bas", "data": text.encode(), "flags": "0000",
                     "storage": 32, "sizes": []})
+    # the configuration file: entries at the edge of what the validator documents, and entries beyond it
+    prog = '10 DIM A$, AB$(3), A1$, ZZ$\n20 A$="X":AB$(1)=A$:A1$="Y":ZZ$="Z":B$="W"\n'
+    for sizes, valid in CONFIG_PROBES:
+        out.append({"fmt": "cli", "kind": "cli-config-valid" if valid else "cli-config-invalid", "name": "prog.bas",
+                    "data": prog.encode(), "flags": r.choice(["0000", "1000", "0010"]), "storage": r.choice([32, 80]), "sizes": sizes})
     for c in out:
         c["req"] = f"clicase {c['flags']} {c['storage']} {hexs(c['name'].encode())} {hexs(c['data'])}"
     return out
+
+
+CONFIG_PROBES = [
+    ([("A$", 1)], True), ([("A$", 32766)], True), ([("AB$()", 5)], True), ([("A1$", 7)], True), ([("A_$()", 7)], True),
+    ([("A$", 10), ("AB$()", 200), ("A1$", 33)], True), ([("B$", 64)], True), ([("ZZ$", 12)], True),
+    ([("a$", 5)], False), ([("A", 5)], False), ([("ABC$", 5)], False), ([("1A$", 5)], False), ([("A$", 0)], False),
+    ([("A$", 32767)], False), ([("A$", -1)], False), ([("$", 5)], False), ([("A$()x", 5)], False), ([("Ab$", 5)], False),
+    ([("A$", 10), ("B", 20)], False), ([("A$", 70000)], False),
+]
+
+
+def config_oracle(case, impl):
+    """C10 / C15: a configuration file is either used (valid entries: key = 1-2 character upper-case BASIC name + `$`
+    or `$()`, 0 < size < 32767) or refused with the documented validation error - never ignored, never a crash"""
+    if case["kind"] == "cli-config-invalid":
+        if impl != "refused ValidationError":
+            return f"configuration {case['sizes']} is outside the documented rule but the tool answers {impl[:40]}"
+        return None
+    if case["kind"] == "cli-config-valid":
+        if not impl.startswith("ok "):
+            return f"valid configuration {case['sizes']} is not accepted: {impl[:60]}"
+        from common import unhex
+        text = unhex(impl[3:]).decode("latin-1").replace("\r", "\n")
+        for key, size in case["sizes"]:
+            if key not in ("A$", "AB$()", "A1$", "ZZ$"):
+                continue          # only names the source DIMensions take their size from the file (C10)
+            ident = ("arr_" if key.endswith("()") else "") + key.replace("()", "")
+            dims = [l for l in text.split("\n") if l.lstrip("0123456789 ").startswith("DIM ") and
+                    __import__("re").search(r"(?<![A-Za-z0-9_])" + __import__("re").escape(ident) + r"(?![A-Za-z0-9_$])", l)]
+            if dims and size != 32 and not any(f"STRING[{size}]" in l for l in dims):
+                return f"{key} is configured with {size} bytes but is declared as {dims[0].strip()[:60]!r}"
+    return None
 
 
 def run(tier):
@@ -103,6 +140,8 @@ def run(tier):
             t = None
         py_text.append(t)
         sx = impl_b09.sexp(t) if t is not None else None
+        if c["kind"] == "cli-config-invalid":
+            sx = None            # the YAML / pydantic layer is not modelled: no model side for a configuration it refuses
         if sx is not None:
             sizes = ",".join(f"{a}={b}" for a, b in c["sizes"])
             reqs.append(f"cli {c['flags']} {c['storage']} {hexs(('/scratch/' + c['name']).encode())} "
